@@ -1293,6 +1293,7 @@ pub fn stream_once(subject: &dyn Subject, case: &StreamCase, total_bytes: u64, c
 /// harness, so the bound includes one item rendering (`item_slack`).
 pub fn c10_streams(subjects: &[(Box<dyn Subject>, StreamCase)], tier: Tier, report: &mut Report) {
     let total: u64 = tier.pick(4 << 20, 256 << 20);
+    let budget = Budget::new(tier.pick(240.0, 1200.0));
     let chunks: &[usize] = tier.pick(&[16, 256, 4096][..], &[16, 64, 256, 4096, 16384][..]);
     let mut units: Vec<(usize, usize, usize)> = Vec::new();
     for si in 0..subjects.len() {
@@ -1312,6 +1313,15 @@ pub fn c10_streams(subjects: &[(Box<dyn Subject>, StreamCase)], tier: Tier, repo
         |acc, i| {
             let (si, chunk, grain) = units[i];
             let (subject, case) = &subjects[si];
+            // wall-clock budget for the whole part: grid points not reached are a cap, never a verdict
+            if budget.expired() {
+                acc.not_exhaustive = true;
+                acc.count("stream_grid_points_not_reached_within_the_time_budget", 1);
+                if acc.caps.is_empty() {
+                    acc.cap(format!("time budget of {:.0} s hit: some (case, chunk, grain) grid points were not streamed", budget.limit.as_secs_f64()));
+                }
+                return;
+            }
             // two lengths: the bound must not depend on the number of bytes processed
             let mut peaks = Vec::new();
             for n in [total / 4, total] {
